@@ -87,7 +87,7 @@ macro_rules! long_psk_harness {
         }
     };
 }
-//@h name=c02_long_psk tier=thorough mode=full slots=2 prop=C02 also=C07,C13,C15 timeout=9000 desc="Psk-mode setup_receiver with a PSK of ANY length 1..=66000: key schedule equals the RFC's on the full string, no panic" bounds="psk length 1..=66000 symbolic, psk_id 1..=2 B; all skR, enc; unwind 50"
+// NOT registered (did not finish reliably: 2050 s alone, > 2 h under load): name=c02_long_psk desc="Psk-mode setup_receiver with a PSK of ANY length 1..=66000: key schedule equals the RFC's on the full string, no panic" bounds="psk length 1..=66000 symbolic, psk_id 1..=2 B; all skR, enc; unwind 50"
 long_psk_harness!(c02_long_psk, true);
 //@h name=c02_long_psk_id tier=thorough mode=full slots=2 prop=C02 also=C07,C13,C15 timeout=7200 desc="Psk-mode setup_receiver with a PSK identifier of ANY length 1..=66000: key schedule equals the RFC's on the full string, no panic" bounds="psk_id length 1..=66000 symbolic, psk 1..=2 B; all skR, enc; unwind 50"
 long_psk_harness!(c02_long_psk_id, false);
@@ -118,3 +118,40 @@ pub fn c02_long_info_len() {
     kani::cover!(il == 65536, "info one byte over 65535");
 }
 }
+
+macro_rules! long_psk_len_harness {
+    ($name:ident, $long_psk:expr) => {
+        stubbed_long! {
+        #[kani::proof]
+        #[kani::unwind(50)]
+        pub fn $name() {
+            let sk_r: u16 = kani::any();
+            let enc: u16 = kani::any();
+            let ll = any_len(LONG);
+            let short: [u8; 2] = kani::any();
+            let sl = any_len(2);
+            kani::assume(ll >= 1 && sl >= 1);
+            let long = &PATTERN[..ll];
+            let (psk, pid): (&[u8], &[u8]) = if $long_psk { (long, &short[..sl]) } else { (&short[..sl], long) };
+            let bundle = PskBundle::new(psk, pid).unwrap();
+            let res = setup_receiver::<SpyAead16, EndsKdf, ToyKemLin>(&OpModeR::Psk(bundle), &XorPrivateKey(sk_r), &enc_from(enc), &[]);
+            match (res, rfc::decap::<G8, LinHash>(KEM_ID, enc, sk_r, None)) {
+                (Ok(ctx), Some(ss)) => {
+                    let suite = rfc::full_suite_id(KEM_ID, ENDS_KDF_ID, AEAD_ID);
+                    let sched = rfc::key_schedule::<EndsHash>(rfc::MODE_PSK, ss.as_slice(), &[], psk, pid, &suite, 16, 12);
+                    assert!(eq_bytes(&spy().new_key[..16], sched.key.as_slice()));
+                    assert!(eq_bytes(ctx.verif_base_nonce(), sched.base_nonce.as_slice()));
+                    assert!(eq_bytes(ctx.verif_exporter_secret(), sched.exporter_secret.as_slice()));
+                }
+                (Err(e), None) => assert!(e == HpkeError::DecapError),
+                _ => assert!(false),
+            }
+            kani::cover!(ll == 65536, "one byte over 65535");
+        }
+        }
+    };
+}
+//@h name=c02_long_psk_len tier=quick mode=full prop=C02 also=C07,C13,C15 timeout=1800 desc="Psk-mode setup_receiver with a PSK of ANY length 1..=66000 and fixed contents: the key schedule equals the RFC's on the full string (a truncation or length confusion changes the length the hash sees), no panic" bounds="psk length 1..=66000 symbolic, contents a fixed pattern; psk_id 1..=2 B symbolic; all skR, enc; unwind 50"
+long_psk_len_harness!(c02_long_psk_len, true);
+//@h name=c02_long_psk_id_len tier=quick mode=full prop=C02 also=C07,C13,C15 timeout=1800 desc="same with a PSK identifier of ANY length 1..=66000 and fixed contents" bounds="psk_id length 1..=66000 symbolic, contents a fixed pattern; psk 1..=2 B symbolic; all skR, enc; unwind 50"
+long_psk_len_harness!(c02_long_psk_id_len, false);
